@@ -1355,6 +1355,20 @@ def confirm_native(contract: Contract, inst: Instance, failure: dict, seed, npoi
     return {"violated": False, "points_tried": len(seeds)}
 
 
+def all_contracts(mod):
+    """The contracts a property module lists plus, transitively, the contracts of every callee they assume at call
+    sites: a property check also discharges the 'home proofs' of what it relies on, so that a change inside a
+    callee fails the callee's own postcondition in the same run."""
+    out, stack = {}, list(mod.contracts())
+    while stack:
+        c = stack.pop(0)
+        if c.name in out:
+            continue
+        out[c.name] = c
+        stack.extend(c.callees)
+    return list(out.values())
+
+
 def replay(path):
     import importlib
 
@@ -1363,7 +1377,7 @@ def replay(path):
     mod = importlib.import_module(f"props.{pid}")
     if hasattr(mod, "replay") and data.get("contract", "").startswith("extra:"):
         return mod.replay(data)
-    contract = {c.name: c for c in mod.contracts()}[data["contract"]]
+    contract = {c.name: c for c in all_contracts(mod)}[data["contract"]]
     inst = {i.name: i for i in contract.instances(data.get("tier", "quick"))}[data["instance"]]
     print(f"replaying {data['contract']} [{data['instance']}] obligation {data['failed_obligation']}")
     nat = data.get("native_replay") or {}
